@@ -291,3 +291,74 @@ def order_operators_fragment(t0: str, t1: str, t2: str, t3: str, as_tree: bool, 
         and L(T['before_f'].evaluate(ctx())) == [i < j for i, j in pairs] and L(T['is_f'].evaluate(ctx())) == [i == j for i, j in pairs] \
         and L(T['root_f'].evaluate(ctx())) == [True] * 4 \
         and _idx(L(T['outer_f'].evaluate(ctx())), els) == outer and _idx(L(T['inner_f'].evaluate(ctx())), els) == inner
+
+
+# --- added after round-2 seeded changes: REAL lxml documents with comments / PIs as siblings of the root element -------------------------
+
+try:
+    import lxml.etree as LX
+except ImportError:        # pragma: no cover
+    LX = None
+from elementpath.xpath_nodes import ProcessingInstructionNode  # noqa: E402
+T.update(parse_all({'all_nodes': '(/ | //node() | //@*)', 'before_all': 'for $x in (/ | //node() | //@*), $y in (/ | //node() | //@*) return $x << $y'}))
+
+
+def _pick(n, top):
+    for k in range(top + 1):
+        if n == k:
+            return k
+    return top
+
+
+@ob(budget=450, bound='lxml document: 0..2 comments and 0..1 PI before the root element, 0..1 comment after it and a PI after it iff one before, 0..2 attributes '
+                      'and 0..1 namespace declaration on the root, one child with text and tail (counts chosen by the solver; lxml trees '
+                      'are concrete on each path): one node per item in document order, positions strictly increasing, links consistent, '
+                      '<< = list order',
+    funcs=[TB + ':build_lxml_node_tree', 'elementpath/xpath_nodes.py:DocumentNode', 'elementpath/xpath2/_xpath2_operators.py:<<'])
+def lxml_document_level_nodes(nb: int, pb: int, na: int, nattr: int, nns: int) -> bool:
+    """
+    pre: 0 <= nb <= 2 and 0 <= pb <= 1 and 0 <= na <= 1 and 0 <= nattr <= 2 and 0 <= nns <= 1
+    post: _
+    """
+    if LX is None:
+        return True
+    nb, pb, na, nattr, nns = _pick(nb, 2), _pick(pb, 1), _pick(na, 1), _pick(nattr, 2), _pick(nns, 1)
+    pa = pb
+    text = '<!--b-->' * nb + '<?p q?>' * pb + '<r' + ' xmlns:n="u"' * nns + ' k="1"' * (nattr > 0) + ' j="2"' * (nattr > 1) + '>h<x>t</x>l</r>' \
+        + '<!--a-->' * na + '<?s z?>' * pa
+    doc = LX.fromstring(text).getroottree()
+    root = build_lxml_node_tree(doc)
+    if not isinstance(root, DocumentNode):
+        return False
+    kinds = [type(c).__name__ for c in root.children]
+    if kinds != ['CommentNode'] * nb + ['ProcessingInstructionNode'] * pb + ['EtreeElementNode'] + ['CommentNode'] * na + ['ProcessingInstructionNode'] * pa:
+        return False
+    order = []
+    stack = [root]
+    while stack:
+        n = stack.pop()
+        order.append(n)
+        kids = list(getattr(n, 'children', None) or [])
+        if any(c.parent is not n for c in kids):
+            return False
+        if isinstance(n, ElementNode):
+            extra = list(n.namespace_nodes) + list(n.attributes)
+            if any(c.parent is not n for c in extra):
+                return False
+            # namespace and attribute nodes come after their element and before its children
+            stack.extend(reversed(kids))
+            stack.extend(reversed(extra))
+        else:
+            stack.extend(reversed(kids))
+    pos = [n.position for n in order]
+    if any(a >= b for a, b in zip(pos, pos[1:])):
+        return False
+    r = [c for c in root.children if isinstance(c, ElementNode)][0]
+    if len(r.attributes) != nattr or len(r.namespace_nodes) != nns + 1 or root.string_value != 'htl':
+        return False
+    sel = L(T['all_nodes'].evaluate(XPathContext(root)))
+    want = [n for n in order if not isinstance(n, NamespaceNode)]
+    if len(sel) != len(want) or any(a is not b for a, b in zip(sel, want)):
+        return False
+    k = len(want)
+    return L(T['before_all'].evaluate(XPathContext(root))) == [i < j for i in range(k) for j in range(k)]
